@@ -291,6 +291,15 @@ func (m *FloodSub) AddPeerStream(
 			e.ctxCancel()
 		}
 	}
+	// The remote sends its full subscription set on the new stream: forget
+	// what an earlier stream of this link told us, an unsubscribe sent
+	// while the stream was being replaced may never have arrived.
+	for chid, tm := range m.peerChannels {
+		delete(tm, tpl)
+		if len(tm) == 0 {
+			delete(m.peerChannels, chid)
+		}
+	}
 	m.peers[tpl] = sh
 	// }
 	m.incSessions = append(m.incSessions, sh)
